@@ -338,7 +338,7 @@ pub fn check_reopen(w: &mut World, ctx: &mut Ctx, step: usize, opkind: &str) {
                             sort_dump(&mut d);
                         }
                         if let Some(diff) = dump::diff_except(&d, &md2, &skip) {
-                            ctx.report(&format!("reopen.{}-differs", mode), "dump", format!("after {}: reopened snapshot vs model: {}", opkind, diff), step, true);
+                            ctx.report(&format!("reopen.{}-differs", mode), "dump", format!("after {}: reopened snapshot (left) vs {} (right): {}", opkind, if ctx.flags.reopen_vs_live { "live object" } else { "model" }, diff), step, true);
                             return;
                         }
                     }
